@@ -8,6 +8,57 @@ import LitexProofs.Stream.HandshakePacket
 import LitexProofs.Stream.HandshakePacketFifo
 import LitexProofs.Stream.HandshakeArbiter
 import LitexProofs.Stream.HandshakePacketizer
+import LitexProofs.Stream.HandshakeLive
+import LitexProofs.Stream.HandshakeGlue
+/-
+  INVENTORY (session 2) — every class of the two anchor files, with its C04 theorems and how the model is tied.
+  stab = handshake stability (`KeepsContract`, or the trace form for routers); prog = progress / no livelock
+  (`ProgressWithin` K, `DeliversWithin` K', `AcceptsWithin` K_acc); Live = member of the composition-closed class
+  `Live`/`Good` (`X_live`), i.e. usable in `pipeline_*`/`compose_good` without a side condition.
+  Tie: A = exhaustive co-exploration of (netlist, model, pending obligations), B = lock-step co-simulation with a holding
+  producer; in both the model-independent monitors run: (S) stability, (P) cooperative watchdog from every visited
+  state against the K of the theorem, (F) source.valid/token independent of source.ready.
+
+  stream.py
+  | class                         | Lean element                         | stab                      | prog                                  | Live | tie (driver machine)                |
+  |-------------------------------|--------------------------------------|---------------------------|---------------------------------------|------|-------------------------------------|
+  | Endpoint.connect              | wire                                 | wire_stable               | wire_no_livelock 1, accepts 1         | yes  | A,B `wire`, `stages w`              |
+  | PipeValid                     | pipeValid                            | pipeValid_stable          | progress 1, no_livelock 2, accepts 1  | yes  | A,B `pipevalid`                     |
+  | PipeReady                     | pipeReady                            | pipeReady_stable          | no_livelock 1, accepts 2              | yes  | A,B `pipeready`                     |
+  | Buffer(pv, pr) (4 variants)   | stages (bufferStages pv pr)          | buffer_stable             | buffer_no_livelock ≤ 2                | yes  | A,B `buffer pv pr`, `buffer_vr`     |
+  | _FIFOWrapper/SyncFIFO d ≥ 2   | syncFifo d / syncFifoBuffered d      | syncFifo(_Buffered)_stable| progress 1, no_livelock 2/3, acc 2    | yes  | A,B `syncfifo d`, `syncfifo_buffered d` |
+  | SyncFIFO, every depth ≥ 0     | stages (syncFifoStages d buffered)   | syncFifoAny_stable        | syncFifoAny_no_livelock ≤ 3           | yes  | A,B `sfifo d b` (selection in model)|
+  | AsyncFIFO                     | —  (two clocks: C05)                 | C05                       | C05                                   | —    | C05                                 |
+  | ClockDomainCrossing same cd   | stages (cdcSameStages b)             | cdcSame_stable            | cdcSame_no_livelock ≤ 2               | yes  | A,B `cdcsame b`; other cd: C05      |
+  | Delay n                       | delay n / stages (delayStages n)     | delay_stable, delayn_stable | delay_no_livelock n+1, accepts 1    | yes  | A,B `delay n`, `delayn n`           |
+  | Pipeline(m_1..m_n)            | stages l (any stage list) / comp     | pipeline_stable           | pipeline_no_livelock ∏K, accepts 1(v,w)| yes | A,B `stages …`, chain3, chain_fb_pr |
+  | BufferizeEndpoints            | bufferize bs bd pv pr e (any Good e) | bufferize_stable          | bufferize_no_livelock, up/down, acc 1 | yes  | A,B `bufferize …`, `bufferized_up`  |
+  | _UpConverter / Pack           | upConv r                             | upConv_stable             | accepts 1, no_livelock r+1            | yes  | A,B `up …`                          |
+  | _DownConverter / Unpack       | downConv r                           | downConv_stable           | no_livelock 1, accepts r              | yes  | A,B `down …`                        |
+  | _IdentityConverter            | downConv 1 / wire                    | downConv_stable           | no_livelock 1                         | yes  | A `converter n n`                   |
+  | Converter (class selection)   | converterKind + the class chosen     | converter_up/down_stable  | converter_up/down_no_livelock         | yes  | A,B `converter nf nt …` + calls     |
+  | StrideConverter               | strideUp r / downConv r (+ Cast)     | strideUp_stable, downConv | accepts 1, no_livelock r+1 / 1        | up: via upConv | A,B `strideup`, `stridedown` |
+  | Gearbox i o                   | gearbox (ioLcm i o) i o              | gearbox_stable (all i,o>0)| progress 1, no_livelock ⌈o/i⌉+1       | no (open) | A,B `gearbox i o msb`          |
+  | Cast / CombinatorialActor     | mapElem f                            | cast_stable               | no_livelock 1, accepts 1              | yes  | A,B `cast …`                        |
+  | Gate                          | gate srd (enable with the sink wires)| gate_stable(+_sharp)      | gate_no_livelock 1 (enabled)          | n/a (control input) | A,B `gate srd`        |
+  | Shifter / PipelinedActor(2)   | shifter dw                           | shifter_stable (ShiftHeld)| accepts 1, no_livelock 3              | no   | A,B `shifter dw`                    |
+  | PipelinedActor(L), BinaryActor| pipeActor L                          | OPEN (model tied by C03)  | OPEN (measured K' = L+1)              | no   | C03 only (`pipeactor L`)            |
+  | Multiplexer / Demultiplexer   | muxOut / demuxOut                    | mux_stable, demux_stable (sel held) | mux_progress, demux_progress | n/a | R,B0 `mux n`, `demux n`, `muxw`, `demuxw` |
+  | Crossbar                      | crossbar n (= demux ∘ mux)           | via mux/demux only        | via mux/demux only                    | n/a  | C03 only (`crossbar n`)             |
+  | Monitor                       | monitored e (Monitor on e.source)    | monitored_stable          | monitored_no_livelock, _transparent   | yes  | A,B `monitored …`; B0 read-back of the watched endpoint |
+  | EndpointDescription, Endpoint | layouts only (C03 DW checks)         | —                         | —                                     | —    | —                                   |
+
+  packet.py
+  | Status                        | status                               | —                         | status_first_last, status_outputs     | —    | A0,B0 `status`                      |
+  | Arbiter                       | arbiter n                            | arbiter_stable            | arbiter_progress, no_starvation n     | —    | AP,BP `arbiter n`                   |
+  | Dispatcher                    | dispatcher m oneHot                  | (comb: as Demultiplexer)  | dispatcher_progress 1                 | —    | AP,BP `dispatcher m oh`             |
+  | Packetizer (aligned)          | packetizer c                         | packetizer_stable         | packetizer_no_livelock 1              | —    | AP,BP `packetizer …`                |
+  | Depacketizer (aligned)        | depacketizer c                       | depacketizer_stable       | depacketizer_no_livelock W+1          | —    | AP,BP `depacketizer …`              |
+  | Packetizer/Depack. unaligned  | C16 models                           | OPEN (monitors, UOk dom.) | OPEN (monitors; 4 open C16 findings)  | —    | AP,BP                               |
+  | PacketFIFO plain              | packetFifo pd qd                     | (FIFO outputs: syncFifo)  | packetfifo_progress 1, no_livelock pd+1 (packets ≤ pd) | — | AP,BP `packetfifo` |
+  | PacketFIFO buffered           | packetFifoBuffered                   | OPEN                      | OPEN (measured 1 / pd+2)              | —    | AP,BP `packetfifo_buffered`         |
+  | Header, HeaderField           | C16                                  | —                         | —                                     | —    | C16                                 |
+-/
 /-
   C04 — Stream elements keep the handshake contract and never stall forever.
 
@@ -502,6 +553,256 @@ example :
     let i  : MuxIn Nat := { sel := 0, sinks := [(true, ⟨7, true, false⟩), (false, z)], ready := false }
     let i' : MuxIn Nat := { sel := 1, sinks := [(true, ⟨7, true, false⟩), (false, z)], ready := false }
     (muxOut 2 z i).valid = true ∧ (muxOut 2 z i').valid = false := by decide
+
+
+/-! ## The composition-closed class `Good` (= `StepStable` + `Live`): stability and progress of ANY pipeline
+
+  `Live e Inv μ B`: while the producer offers (any `source.ready`) the element offers or `μ ≤ B` strictly decreases, and
+  `μ` never increases in a cycle in which the element does not offer.  This single condition implies `OfferMeasure`,
+  `DelMeasure` and `IdleMono` (the three hypotheses of `compose_progress_general`) and is preserved by `⟫`
+  (`Live.comp`), so the side condition is discharged once per element class (`X_live`) and never again. -/
+
+/-- Closure: `a ⟫ b` is `Good` when `a` and `b` are; delivery window `(B_b + 1)·(B_a + 1)`. -/
+theorem compose_good {a : Elem α β σ} {b : Elem β γ τ} {Ia : σ → Prop} {Ib : τ → Prop}
+    {μa : σ → Nat} {Ba : Nat} {μb : τ → Nat} {Bb : Nat} (ha : Good a Ia μa Ba) (hb : Good b Ib μb Bb) :
+    Good (a.comp b) (fun s => Ia s.1 ∧ Ib s.2) (fun s => μb s.2 * (Ba + 1) + μa s.1) (Bb * (Ba + 1) + Ba) :=
+  Good.comp ha hb
+
+theorem good_stable {e : Elem α β σ} {Inv : σ → Prop} {μ : σ → Nat} {B : Nat} (h : Good e Inv μ B)
+    (h0 : Inv e.init) : KeepsContract e := h.keepsContract h0
+
+theorem good_no_livelock {e : Elem α β σ} {Inv : σ → Prop} {μ : σ → Nat} {B : Nat} (h : Good e Inv μ B)
+    (h0 : Inv e.init) : DeliversWithin e (B + 1) := h.delivers h0
+
+/-- `compose_progress_general` with both side conditions discharged by class membership. -/
+theorem compose_progress_auto {a : Elem α β σ} {b : Elem β γ τ} {Ia : σ → Prop} {Ib : τ → Prop}
+    {μa : σ → Nat} {Ba : Nat} {μb : τ → Nat} {Bb : Nat} (ha : Live a Ia μa Ba) (hb : Live b Ib μb Bb)
+    (h0a : Ia a.init) (h0b : Ib b.init) : DeliversWithin (a.comp b) (Bb * (Ba + 1) + Ba + 1) :=
+  compose_progress_general ha.offer hb.measure hb.idleMono h0a h0b
+
+/-- The per-class lemmas (each is `Good`): PipeValid, PipeReady, connect, SyncFIFO, SyncFIFOBuffered, _UpConverter /
+    Pack, _DownConverter / Unpack (without and with the count flag), Cast. -/
+theorem element_classes_good (z : Tok α) {π : Type} (zp : α) (p0 : π) (d r : Nat) (hd : 1 ≤ d) (hr : 0 < r)
+    (f : α → β) :
+    Good (pipeValid z) (fun _ => True) (fun s => if s.valid then 0 else 1) 1 ∧
+    Good (pipeReady z) prInv (fun _ => 0) 0 ∧
+    Good (wire (α := α)) (fun _ => True) (fun _ => 0) 0 ∧
+    Good (syncFifo d z) (fifoInv d) (fun q => if q.isEmpty then 1 else 0) 1 ∧
+    Good (syncFifoBuffered d z) (fbInv d) (fun s => if s.readable then 0 else if s.q.isEmpty then 2 else 1) 2 ∧
+    Good (upConv r zp p0) (upInv r) (upMu r) r ∧
+    Good (downConv (π := π) r zp) (downInv r) (fun _ => 0) 0 ∧
+    Good (downConvV (π := π) r zp) (downInv r) (fun _ => 0) 0 ∧
+    Good (mapElem f) (fun _ => True) (fun _ => 0) 0 :=
+  ⟨pipeValid_good z, pipeReady_good z, wire_good, syncFifo_good d hd z, syncFifoBuffered_good d hd z,
+   upConv_good r hr zp p0, downConv_good r hr zp, downConvV_good r hr zp, mapElem_good f⟩
+
+/-- A heterogeneous example obtained with no side condition at all: `_DownConverter(r₁) ⟫ PipeValid ⟫ _UpConverter(r₂)
+    ⟫ SyncFIFOBuffered(d)` keeps the contract and delivers at least every `3·(r₂ + 1)·2·1` cooperative cycles. -/
+theorem mixed_chain_good {π : Type} (r1 r2 d : Nat) (h1 : 0 < r1) (h2 : 0 < r2) (hd : 1 ≤ d) (z : α) (p0 : π)
+    (z1 : Tok (α × π)) (z2 : Tok (UpWord α π)) :
+    KeepsContract ((downConv r1 z).comp ((pipeValid z1).comp ((upConv r2 z p0).comp (syncFifoBuffered d z2)))) ∧
+    DeliversWithin ((downConv r1 z).comp ((pipeValid z1).comp ((upConv r2 z p0).comp (syncFifoBuffered d z2))))
+      (((2 * (r2 + 1) + r2) * (1 + 1) + 1) * (0 + 1) + 0 + 1) := by
+  have g := compose_good (downConv_good (π := π) r1 h1 z)
+    (compose_good (pipeValid_good z1) (compose_good (upConv_good r2 h2 z p0) (syncFifoBuffered_good d hd z2)))
+  have h0 : downInv r1 (downConv (π := π) r1 z).init ∧ True ∧ upInv r2 (upConv r2 z p0).init ∧
+      fbInv d (syncFifoBuffered d z2).init :=
+    ⟨by simpa [downInv, downConv] using h1, trivial, by simpa [upInv, upConv] using h2,
+     by simp [fbInv, syncFifoBuffered]⟩
+  exact ⟨g.keepsContract h0, g.delivers h0⟩
+
+/-! ## Pipeline(m_1, …, m_n) over ANY list of stages (connect, PipeValid, PipeReady, SyncFIFO d, SyncFIFOBuffered d):
+    by induction over the list (`stages_good`) -/
+
+theorem pipeline_stable (z : Tok α) (l : List Stage) (hl : ∀ st ∈ l, stageOk st) : KeepsContract (stages z l) :=
+  (stages_good z l hl).keepsContract (pipeInv_init z l)
+
+/-- A delivery at least every `pipeB l + 1 = ∏ (window of stage k)` cooperative cycles, from every reachable state. -/
+theorem pipeline_no_livelock (z : Tok α) (l : List Stage) (hl : ∀ st ∈ l, stageOk st) :
+    DeliversWithin (stages z l) (pipeB l + 1) :=
+  (stages_good z l hl).delivers (pipeInv_init z l)
+
+theorem pipeline_progress (z : Tok α) (l : List Stage) (hl : ∀ st ∈ l, stageOk st) :
+    ProgressWithin (stages z l) (pipeB l + 1) := (pipeline_no_livelock z l hl).progress
+
+/-- Pipelines of connect / PipeValid stages (Delay, Buffer(pipe_valid)) serve their sink in every cooperative cycle. -/
+theorem pipeline_accepts (z : Tok α) (l : List Stage) (hl : ∀ st ∈ l, stageRT st) (hok : ∀ st ∈ l, stageOk st) :
+    AcceptsWithin (stages z l) 1 :=
+  (stages_readyTransparent z l hl).accepts (pipeInv_init z l) (stages_good z l hok).live.inv_step
+
+/-- Non-vacuity: the window of `Pipeline(PipeValid, SyncFIFO(2), PipeReady)` is 2·2·1 = 4, of
+    `Pipeline(PipeReady, SyncFIFO(16, buffered), SyncFIFO(3), PipeReady, PipeValid, connect, SyncFIFO(2))` 24; four
+    cooperative cycles through the former from reset deliver 2 tokens. -/
+example : pipeB [.pv, .fifo 2, .pr] + 1 = 4 ∧ pipeB [.pr, .fifoB 16, .fifo 3, .pr, .pv, .wire, .fifo 2] + 1 = 24 ∧
+    (let c : In Nat := ⟨true, ⟨1, false, false⟩, true⟩
+     ((stages zTok [.pv, .fifo 2, .pr]).delivered (stages zTok [.pv, .fifo 2, .pr]).init [c, c, c, c]).length = 2) := by
+  decide
+
+/-! ### The stage selections of stream.py: every constructor call gives a legal stage list -/
+
+theorem buffer_stable (z : Tok α) (pv pr : Bool) : KeepsContract (stages z (bufferStages pv pr)) :=
+  pipeline_stable z _ (bufferStages_ok pv pr)
+
+theorem buffer_no_livelock (z : Tok α) (pv pr : Bool) :
+    DeliversWithin (stages z (bufferStages pv pr)) (pipeB (bufferStages pv pr) + 1) :=
+  pipeline_no_livelock z _ (bufferStages_ok pv pr)
+
+/-- `SyncFIFO(layout, depth, buffered)` for EVERY depth (0: connect, 1: Buffer, ≥ 2: the Migen FIFOs). -/
+theorem syncFifoAny_stable (z : Tok α) (depth : Nat) (buffered : Bool) :
+    KeepsContract (stages z (syncFifoStages depth buffered)) :=
+  pipeline_stable z _ (syncFifoStages_ok depth buffered)
+
+theorem syncFifoAny_no_livelock (z : Tok α) (depth : Nat) (buffered : Bool) :
+    DeliversWithin (stages z (syncFifoStages depth buffered)) (pipeB (syncFifoStages depth buffered) + 1) :=
+  pipeline_no_livelock z _ (syncFifoStages_ok depth buffered)
+
+/-- The window is at most 3 whatever the depth. -/
+theorem syncFifoAny_window (depth : Nat) (buffered : Bool) : pipeB (syncFifoStages depth buffered) + 1 ≤ 3 := by
+  unfold syncFifoStages
+  by_cases h2 : depth ≥ 2
+  · cases buffered <;> simp [h2, pipeB, stageB]
+  · by_cases h1 : depth = 1
+    · simp [h1, bufferStages, pipeB, stageB]
+    · simp [h2, h1, pipeB]
+
+theorem delayn_stable (z : Tok α) (n : Nat) : KeepsContract (stages z (delayStages n)) :=
+  pipeline_stable z _ (delayStages_ok n)
+
+theorem delayn_no_livelock (z : Tok α) (n : Nat) :
+    DeliversWithin (stages z (delayStages n)) (pipeB (delayStages n) + 1) :=
+  pipeline_no_livelock z _ (delayStages_ok n)
+
+theorem delayn_accepts (z : Tok α) (n : Nat) : AcceptsWithin (stages z (delayStages n)) 1 :=
+  pipeline_accepts z _ (delayStages_rt n) (delayStages_ok n)
+
+theorem cdcSame_stable (z : Tok α) (b : Bool) : KeepsContract (stages z (cdcSameStages b)) :=
+  pipeline_stable z _ (cdcSameStages_ok b)
+
+theorem cdcSame_no_livelock (z : Tok α) (b : Bool) :
+    DeliversWithin (stages z (cdcSameStages b)) (pipeB (cdcSameStages b) + 1) :=
+  pipeline_no_livelock z _ (cdcSameStages_ok b)
+
+/-! ## BufferizeEndpoints({sink?, source?}, pipe_valid, pipe_ready) around ANY `Good` element -/
+
+theorem bufferize_stable {ρ : Type} (bs bd pv pr : Bool) (zi : Tok α) (zo : Tok β) {e : Elem α β ρ}
+    {Inv : ρ → Prop} {μ : ρ → Nat} {B : Nat} (he : Good e Inv μ B) (h0 : Inv e.init) :
+    KeepsContract (bufferize bs bd pv pr zi zo e) := by
+  obtain ⟨I, m, K, hg, hi, _⟩ := bufferize_good bs bd pv pr zi zo he
+  exact hg.keepsContract (hi h0)
+
+/-- Window = (window of the source buffer) · (window of the element) · (window of the sink buffer). -/
+theorem bufferize_no_livelock {ρ : Type} (bs bd pv pr : Bool) (zi : Tok α) (zo : Tok β) {e : Elem α β ρ}
+    {Inv : ρ → Prop} {μ : ρ → Nat} {B : Nat} (he : Good e Inv μ B) (h0 : Inv e.init) :
+    DeliversWithin (bufferize bs bd pv pr zi zo e)
+      ((pipeB (if bd then bufferStages pv pr else []) + 1) * (B + 1) *
+       (pipeB (if bs then bufferStages pv pr else []) + 1)) := by
+  obtain ⟨I, m, K, hg, hi, hK⟩ := bufferize_good bs bd pv pr zi zo he
+  rw [← hK]
+  exact hg.delivers (hi h0)
+
+/-- Instances served by the driver (`bufferize … up …` / `bufferize … down …`). -/
+theorem bufferize_up_stable {π : Type} (bs bd pv pr : Bool) (r : Nat) (hr : 0 < r) (zi : Tok (α × π))
+    (zo : Tok (UpWord α π)) (z : α) (p0 : π) : KeepsContract (bufferize bs bd pv pr zi zo (upConv r z p0)) :=
+  bufferize_stable bs bd pv pr zi zo (upConv_good r hr z p0)
+    (by simpa [upInv, upConv] using hr)
+
+theorem bufferize_up_no_livelock {π : Type} (bs bd pv pr : Bool) (r : Nat) (hr : 0 < r) (zi : Tok (α × π))
+    (zo : Tok (UpWord α π)) (z : α) (p0 : π) :
+    DeliversWithin (bufferize bs bd pv pr zi zo (upConv r z p0))
+      ((pipeB (if bd then bufferStages pv pr else []) + 1) * (r + 1) *
+       (pipeB (if bs then bufferStages pv pr else []) + 1)) :=
+  bufferize_no_livelock bs bd pv pr zi zo (upConv_good r hr z p0)
+    (by simpa [upInv, upConv] using hr)
+
+/-- Without PipeReady the sink of a bufferized up-converter is served in every cooperative cycle. -/
+theorem bufferize_up_accepts {π : Type} (bs bd pv : Bool) (r : Nat) (hr : 0 < r) (zi : Tok (α × π))
+    (zo : Tok (UpWord α π)) (z : α) (p0 : π) : AcceptsWithin (bufferize bs bd pv false zi zo (upConv r z p0)) 1 :=
+  (bufferize_readyTransparent bs bd pv zi zo (upConv_readyTransparent r z p0)).accepts
+    ⟨pipeInv_init zi _, (show upInv r (upConv r z p0).init by simpa [upInv, upConv] using hr), pipeInv_init zo _⟩
+    (fun s i h => by
+      have hs : ∀ st ∈ (if bs then bufferStages pv false else []), stageOk st := by
+        intro st hst; cases bs
+        · simp at hst
+        · exact bufferStages_ok pv false st (by simpa using hst)
+      have hd : ∀ st ∈ (if bd then bufferStages pv false else []), stageOk st := by
+        intro st hst; cases bd
+        · simp at hst
+        · exact bufferStages_ok pv false st (by simpa using hst)
+      exact ((stages_good zi _ hs).live.comp ((upConv_live r hr z p0).comp (stages_good zo _ hd).live)).inv_step s i h)
+
+theorem bufferize_down_stable {π : Type} (bs bd pv pr : Bool) (r : Nat) (hr : 0 < r) (zi : Tok (List α × π))
+    (zo : Tok ((α × π) × Bool)) (z : α) : KeepsContract (bufferize bs bd pv pr zi zo (downConvV r z)) :=
+  bufferize_stable bs bd pv pr zi zo (downConvV_good r hr z) (by simpa [downInv, downConvV, downConv] using hr)
+
+theorem bufferize_down_no_livelock {π : Type} (bs bd pv pr : Bool) (r : Nat) (hr : 0 < r) (zi : Tok (List α × π))
+    (zo : Tok ((α × π) × Bool)) (z : α) :
+    DeliversWithin (bufferize bs bd pv pr zi zo (downConvV r z))
+      ((pipeB (if bd then bufferStages pv pr else []) + 1) * (0 + 1) *
+       (pipeB (if bs then bufferStages pv pr else []) + 1)) :=
+  bufferize_no_livelock bs bd pv pr zi zo (downConvV_good r hr z) (by simpa [downInv, downConvV, downConv] using hr)
+
+/-- The driver's machines are these compositions. -/
+example (bs bd pv pr : Bool) (r : Nat) :
+    bufferize bs bd pv pr zUpIn (zUpOut r) (upConv r 0 0) =
+      (stages zUpIn (if bs then bufferStages pv pr else [])).comp
+        ((upConv r 0 0).comp (stages (zUpOut r) (if bd then bufferStages pv pr else []))) := rfl
+
+/-! ## Converter(nbits_from, nbits_to): whatever class `_get_converter_ratio` selects, its ratio is ≥ 1, so the
+    converter theorems apply to every constructor call that does not raise -/
+
+theorem converter_up_stable_and_live {π : Type} (nf nt r : Nat) (hf : 0 < nf) (ht : 0 < nt)
+    (h : converterKind nf nt = some (.up, r)) (z : α) (p0 : π) :
+    nt = r * nf ∧ KeepsContract (upConv r z p0) ∧ AcceptsWithin (upConv r z p0) 1 ∧
+    DeliversWithin (upConv r z p0) (r + 1) := by
+  obtain ⟨hr, hup, _, _⟩ := converterKind_ratio nf nt hf ht _ _ h
+  exact ⟨hup rfl, upConv_stable r z p0, upConv_progress r hr z p0, upConv_no_livelock r hr z p0⟩
+
+theorem converter_down_stable_and_live {π : Type} (nf nt r : Nat) (hf : 0 < nf) (ht : 0 < nt)
+    (h : converterKind nf nt = some (.down, r)) (z : α) :
+    nf = r * nt ∧ KeepsContract (downConv (π := π) r z) ∧ DeliversWithin (downConv (π := π) r z) 1 ∧
+    AcceptsWithin (downConv (π := π) r z) (r - 1 + 1) := by
+  obtain ⟨hr, _, hdn, _⟩ := converterKind_ratio nf nt hf ht _ _ h
+  exact ⟨hdn rfl, downConv_stable r z, downConv_no_livelock r hr z, downConv_accepts r hr z⟩
+
+theorem converter_ident_stable_and_live {π : Type} (nf nt r : Nat) (hf : 0 < nf) (ht : 0 < nt)
+    (h : converterKind nf nt = some (.ident, r)) (z : α) :
+    nf = nt ∧ r = 1 ∧ KeepsContract (downConv (π := π) 1 z) ∧ DeliversWithin (downConv (π := π) 1 z) 1 := by
+  obtain ⟨_, _, _, hid⟩ := converterKind_ratio nf nt hf ht _ _ h
+  exact ⟨(hid rfl).1, (hid rfl).2, downConv_stable 1 z, downConv_no_livelock 1 (by omega) z⟩
+
+/-- Non-vacuity / negative side: 8→24 selects up ×3, 24→8 down ×3, 8→8 identity, 8→12 raises. -/
+example : converterKind 8 24 = some (.up, 3) ∧ converterKind 24 8 = some (.down, 3) ∧
+    converterKind 8 8 = some (.ident, 1) ∧ converterKind 8 12 = none := by decide
+
+/-! ## Monitor: watching an endpoint does not touch its handshake -/
+
+/-- The complete output trace (sink.ready, source.valid, source token) of an element with a Monitor on its source is
+    the trace of the element alone, from every pair of states and for every input list. -/
+theorem monitored_transparent {ρ : Type} (e : Elem α β ρ) (w : Nat) (cfg : MonCfg) (df : Bool) (s : ρ × MonState)
+    (ins : List (In α)) : (monitored e w cfg df).outs s ins = e.outs s.1 ins :=
+  monitored_outs e w cfg df ins s
+
+theorem monitored_stable {ρ : Type} {e : Elem α β ρ} {Inv : ρ → Prop} {μ : ρ → Nat} {B : Nat} (h : Good e Inv μ B)
+    (h0 : Inv e.init) (w : Nat) (cfg : MonCfg) (df : Bool) : KeepsContract (monitored e w cfg df) :=
+  (monitored_good h w cfg df).keepsContract h0
+
+theorem monitored_no_livelock {ρ : Type} {e : Elem α β ρ} {Inv : ρ → Prop} {μ : ρ → Nat} {B : Nat}
+    (h : Good e Inv μ B) (h0 : Inv e.init) (w : Nat) (cfg : MonCfg) (df : Bool) :
+    DeliversWithin (monitored e w cfg df) (B + 1) :=
+  (monitored_good h w cfg df).delivers h0
+
+/-- The driver's `monitored … c_1 … c_k` machines: a monitored pipeline of stages. -/
+theorem monitored_pipeline (z : Tok α) (l : List Stage) (hl : ∀ st ∈ l, stageOk st) (w : Nat) (cfg : MonCfg)
+    (df : Bool) :
+    KeepsContract (monitored (stages z l) w cfg df) ∧ DeliversWithin (monitored (stages z l) w cfg df) (pipeB l + 1) :=
+  ⟨monitored_stable (stages_good z l hl) (pipeInv_init z l) w cfg df,
+   monitored_no_livelock (stages_good z l hl) (pipeInv_init z l) w cfg df⟩
+
+/-- What the counter shows: below saturation the token counter advances exactly on a source handshake. -/
+theorem monitor_counts_handshakes (w : Nat) (cfg : MonCfg) (df : Bool) (s : MonState) (i : MonIn)
+    (ht : cfg.tokens = true) (hr : i.reset = false) (hsat : s.tokens.count + 1 < 2 ^ w) :
+    ((monitor w cfg df).next s i).tokens.count = s.tokens.count + (if i.valid && i.ready then 1 else 0) :=
+  monitor_tokens_next w cfg df s i ht hr hsat
 
 /-! ## packet.Dispatcher -/
 
